@@ -143,7 +143,7 @@ impl StateCheck for C14 {
 }
 
 /// GRID: one step, EPB use 100 kWh; base PV on a dense grid of production/use ratios (0 .. 1.2 in steps of
-/// 0.01, each also 0.0005 below the grid point, plus 1.5, 2, 3, 10) and SMALL increments (0.1 and 1 kWh):
+/// 0.01, each also 0.0005 below the grid point, plus 1.5, 2, 3, 10) and increments of 0.1, 1, 10 and 50 kWh:
 /// monotonicity must also hold for small steps across every ratio, where thresholds and kinks would sit.
 fn grid_slots() -> Vec<Vec<Letter>> {
     let raw = |s: String| Line::Raw(s);
@@ -151,6 +151,9 @@ fn grid_slots() -> Vec<Vec<Letter>> {
         Letter::many(vec![raw("0, CONSUMO, ILU, ELECTRICIDAD, 100".into()), raw("1, CONSUMO, CAL, GASNATURAL, 40".into())]),
         Letter::many(vec![raw("0, CONSUMO, ILU, ELECTRICIDAD, 100".into()), raw("0, CONSUMO, NEPB, ELECTRICIDAD, 20".into())]),
         Letter::many(vec![raw("0, CONSUMO, ILU, ELECTRICIDAD, 60".into()), raw("1, CONSUMO, ACS, ELECTRICIDAD, 40".into()), raw("2, PRODUCCION, EL_COGEN, 30".into()), raw("2, CONSUMO, COGEN, GASNATURAL, 75".into())]),
+        // a coal-fired, inefficient cogenerator: its electricity is worse than the grid's, so any growth of its
+        // self-use shows as more non-renewable energy and more emissions
+        Letter::many(vec![raw("0, CONSUMO, ILU, ELECTRICIDAD, 100".into()), raw("2, PRODUCCION, EL_COGEN, 40".into()), raw("2, CONSUMO, COGEN, CARBON, 110".into())]),
     ];
     let mut bases = vec![];
     for n in 0..=120 {
@@ -161,13 +164,13 @@ fn grid_slots() -> Vec<Vec<Letter>> {
     }
     bases.extend([150.0, 200.0, 300.0, 1000.0]);
     let base_letters: Vec<Letter> = bases.iter().map(|b| if *b == 0.0 { Letter::many(vec![]) } else { Letter::one(raw(format!("0, PRODUCCION, EL_INSITU, {b}"))) }).collect();
-    let incs: Vec<Letter> = [0.1, 1.0].iter().map(|d| Letter::one(raw(format!("9, PRODUCCION, EL_INSITU, {d}")))).collect();
+    let incs: Vec<Letter> = [0.1, 1.0, 10.0, 50.0].iter().map(|d| Letter::one(raw(format!("9, PRODUCCION, EL_INSITU, {d}")))).collect();
     vec![ctxs, base_letters, incs]
 }
 
 pub fn run(ctx: &Ctx) -> i32 {
     let shared = Shared::new("C14", ctx);
-    explore(ctx, "GRID: dense grid of production/use ratios x small increments x 3 contexts", Layered { slots: grid_slots(), bases: crate::alpha::bases(false) }, C14, shared.clone());
+    explore(ctx, "GRID: dense grid of production/use ratios x small increments x 4 contexts", Layered { slots: grid_slots(), bases: crate::alpha::bases(false) }, C14, shared.clone());
     flow_models(ctx, &shared, C14, FlowSpec { quick_depth: 3, thorough_depth: 4, extra: vec![], deep: true, heavy_oracle: false, seeded: true, t3: true, valuesets: false });
     finish(
         ctx,
